@@ -304,8 +304,12 @@ def ccsds_generator(
         if buffer_read_size_bytes is None:
             # Default to a full read of the file
             buffer_read_size_bytes = -1
-        total_length_bytes = binary_data.seek(0, io.SEEK_END)  # This is probably preferable to len
-        binary_data.seek(0, 0)
+        if binary_data.seekable():
+            total_length_bytes = binary_data.seek(0, io.SEEK_END)  # This is probably preferable to len
+            binary_data.seek(0, 0)
+        else:
+            # e.g. the read end of a pipe: the length is unknown, read until the source is exhausted
+            total_length_bytes = None
         logger.info(f"Creating packet generator from a filelike object, {binary_data}. "
                     f"Total length is {total_length_bytes} bytes")
         read_bytes_from_source = binary_data.read
